@@ -733,17 +733,18 @@ class SymX:
             return outs
         outs = []
         for s, v in self.ev(e["scrut"], st):
-            earlier = []
+            earlier = []          # patterns of earlier *unguarded* arms: reaching a later arm proves these did not match
+            earlier_guarded = []  # patterns of earlier guarded arms: a later arm is also reached when one matched and its guard failed
             for i, arm in enumerate(e["arms"]):
                 pr = show(arm["pat"])
-                s_i = s.cond(("match", v, pr, i, arm["pat"], earlier[:]))
+                s_i = s.cond(("match", v, pr, i, arm["pat"], earlier[:], earlier_guarded[:]))
                 self.bind(arm["pat"], v, s_i)
                 if "guard" in arm:
                     for s_g, g in self.ev(arm["guard"], s_i):
                         outs.extend(self.ev(arm["body"], s_g.cond(("guard", g, True))))
                 else:
                     outs.extend(self.ev(arm["body"], s_i))
-                earlier.append(pr)
+                (earlier_guarded if "guard" in arm else earlier).append(pr)
                 self._guard(len(outs))
         return outs
 
